@@ -248,5 +248,33 @@ def run(prog, chk):
     ai = [n for (n, c) in fp.nodes_with_call(name="self._activate_inbound")]
     chk.ob("R6.gate-after-new-keys", "_parse_newkeys", bool(ai) and len(gate) == 1 and fp.dominated(gate, guard_nodes=ai), pn.loc,
            "send gate reopens only after inbound keys are active")
+    # the pending flag consulted by that test is the one the new inbound keys clear: the test must come after them
+    chk.ob("R6.pending-test-after-new-inbound-keys", "_parse_newkeys", bool(ai) and bool(dec) and fp.dominated(dec, guard_nodes=ai), pn.loc,
+           "`need_rekey()` is consulted only after _activate_inbound() (which is what clears it); tested earlier it is still set, "
+           "in_kex would stay True and the next threshold crossing would never send KEXINIT")
+    # R8 who may forgive the overflow: the counters that drop a peer ignoring our rekey request restart only when new
+    # inbound keys are installed or at the moment a rekey is first asked for (under `not __need_rekey`)
+    nz = 0
+    for f in prog.all_functions():
+        if f.cls is None or f.cls.name != "Packetizer":
+            continue
+        zs = [(st, t, v) for (st, t, v) in attr_writes(f.node) if t.attr in ("__received_bytes_overflow", "__received_packets_overflow")
+              and isinstance(st, ast.Assign) and isinstance(v, ast.Constant) and v.value == 0]
+        if not zs:
+            continue
+        ff = Flow(prog, f, implicit=False)
+        for (st, t, v) in zs:
+            nz += 1
+            if f.name in ("__init__", "set_inbound_cipher"):
+                chk.ob("R8.overflow-forgiven-only-with-new-keys-or-a-fresh-request", "%s:%s" % (f.name, t.attr), True, "%s:%d" % (f.module.path, st.lineno),
+                       "reset when the inbound keys are (re)installed")
+                continue
+            nodes = [n for n in ff.cfg.nodes_for(st) if n.id in ff.live]
+            g = ff.edge_guard(lambda x: unparse(x) == "self.__need_rekey", "F")
+            ok = bool(nodes) and ff.dominated(nodes, guard_edge=g)
+            chk.ob("R8.overflow-forgiven-only-with-new-keys-or-a-fresh-request", "%s:%s" % (f.name, t.attr), ok, "%s:%d" % (f.module.path, st.lineno),
+                   "%s reset in %s %s" % (t.attr, f.name, "only when no rekey is pending yet (the `only ask once` arm)" if ok else
+                                          "also while a rekey is pending: a peer that ignores our KEXINIT is never dropped"))
+    chk.floor("R8", "overflow counter resets", nz, 6)
     from ._shared import check_compression_activation
     check_compression_activation(prog, chk, "R7.compression-restarts-with-keys")
